@@ -1,4 +1,5 @@
-import Comdex.Lemmas.Lend
+import Comdex.Lemmas.LendLtv
+import Comdex.Lemmas.LendAccrual
 /-!
 # C08 — Lending books balance and borrowing is bounded by loan-to-value
 
@@ -16,13 +17,27 @@ interest / reward amounts)
     → `C08.totalBorrowed_eq`, `C08.totalStable_eq` (all histories, hand-overs included, no side condition).
 * "a borrow or draw succeeds only if debt value (principal + accrued interest + new loan) ≤ collateral value × LTV at the prices in force"
     → `C08.borrow_respects_ltv`, `C08.draw_respects_ltv` (decision form: the `Dec` ratio the chain computes is ≤ the LTV),
-      `C08.ltv_exact` (exact-rational corollary with the rounding slack ε = ½·10⁻¹⁸ + 10⁻³⁶ of `Dec.Quo`),
-      `C08.interpool_borrow_respects_transit_ltv` (cross-pool: second check on the bridged transit asset).
+      `C08.ltv_exact` (+ `borrow_accepted_ltv_exact`, `draw_accepted_ltv_exact`): the accept decision multiplied out over the integers,
+      `(D − ½u − u²)… < (ltv + ½u + u²)·(C + ½u)` with `D = debt·p_out/d_out`, `C = coll·p_in/d_in` exact and `u = 10⁻¹⁸`: half an ulp
+      for each of the two `CalcAssetPrice` quotients (truncated big-integer division, then half-even) and for the final `Quo`
+      (`ExactLtv`); with decimal scales dividing 10¹⁸ only the final `Quo` rounds (`ExactLtvScales`: `D/C < ltv + ½u + u²`);
+      `ltv_exact_tight`: the slack is real (an accepted loan whose exact ratio exceeds the LTV by 2.5·10⁻¹⁹);
+      `C08.interpool_borrow_respects_transit_ltv`, `C08.interpool_borrow_ltv_exact` (cross-pool: second check on the bridged transit
+      asset, exact form, plus the three roundings between the pledged amount and the bridged quantity).
       The handlers value the collateral as the asset of the debited LEND POSITION; since the repair of defect A (`BorrowAsset` now
       refuses a pair whose collateral asset is not the lend's asset) this is the asset of the pledged cTokens:
       `C08.borrow_respects_ltv_pledged` (the message level statement: pledged denom = cToken of the pair's collateral asset, valued as
       that asset); regression example for the old witness below it.
 * "… and the pool actually holds the lent-out coins" → `C08.borrow_requires_pool_funds`, `C08.draw_requires_pool_funds`.
+* (depth) accrued interest and rewards — inputs of the identities above — are themselves computed by the model from the RATES in force
+  (`Model/LendAccrual.lean`, compared bit for bit with the real records on every run); their bookkeeping loses nothing:
+    → `C08.accrual_split` (one accrual: interest charged = reserve share + lenders' share, no coin moves, no total changes),
+      `C08.accrual_zero_elapsed` (a second accrual in the same block is the identity), `C08.reward_tracker_conserved` (whole tokens
+      paid + fraction carried = fraction before + reward accrued), `C08.reward_source` (a reward is taken from the accumulated lenders'
+      share or from the reserve), `C08.repay_split`, `C08.closeBorrow_split` (every repayment = reserve share + lenders' share +
+      principal + at most one token of dust).
+* (depth) emergency controls fail closed → `C08.killswitch_rejects_lend_ops`, `C08.killswitch_rejects_borrow_ops`,
+  `C08.guards_reject_new_positions`, `C08.guards_reject_borrow`, `C08.depreciation_rejects`, `C08.rejected_no_change`.
 * "withdrawing or closing a lend position never releases collateral pledged to an open borrow"
     → `C08.withdraw_never_releases_pledged`, `C08.closeLend_never_releases_pledged`.
 -/
@@ -161,14 +176,57 @@ theorem draw_respects_ltv {cfg : Cfg} {s s' : State} {u k d : Nat} {y : Int} {ex
   exact ⟨_, _, _, _, _, _, r, ‹getBorrow s.borrows k = some _›, ‹getLend s.lends _ = some _›, ‹cfg.pair? _ = some _›, ‹cfg.rates? _ = some _›,
     hit, hb1, hr, hle⟩
 
-/-- **Exact-rational corollary**: an accepted ratio means `value(debt)/value(collateral) < LTV + ½·10⁻¹⁸ + 10⁻³⁶` for the two `Dec`
-valuations `vout`, `vin` the chain computed (raw 10⁻¹⁸ integers; `ε` is the rounding of the final `Quo` only). -/
+/-- **Exact form of the accept decision** — for two configured assets at the prices in force, non-negative amounts and `ltv ≥ 0`:
+`ratio ≤ ltv` (what `VerifyCollateralizationRatio` accepts) implies `ExactLtv` — the inequality between the exact products
+`debt·p_out`, `coll·p_in`, the decimal scales and the LTV with half an ulp of slack for each of the three roundings — and, when the
+decimal scales divide `10^18` (every `10^k`, `k ≤ 18`), `ExactLtvScales`: only the final quotient rounds. -/
 theorem ltv_exact {cfg : Cfg} {prices : List (Nat × Nat)} {aIn : Int} {assetIn : Nat} {aOut : Int} {assetOut : Nat} {r ltv : Dec}
-    (h : collRatio cfg prices aIn assetIn aOut assetOut = .ok r) (hle : r ≤ ltv) :
-    ∃ vin vout, calcPrice cfg prices assetIn aIn = .ok vin ∧ calcPrice cfg prices assetOut aOut = .ok vout ∧
-      (0 < vin → 0 ≤ vout → 2 * (vout * Dec.PP) < ((2 * ltv + 1) * Dec.P + 2) * vin) := by
-  obtain ⟨vin, vout, h1, h2, _, rfl⟩ := collRatio_ok h
-  exact ⟨vin, vout, h1, h2, fun hi ho => quo_le_exact vout vin ltv ho hi hle⟩
+    (h : collRatio cfg prices aIn assetIn aOut assetOut = .ok r) (hle : r ≤ ltv) (hc : 0 ≤ aIn) (hd : 0 ≤ aOut) (hl : 0 ≤ ltv) :
+    ∃ ai pin ao pout, cfg.asset? assetIn = some ai ∧ prices.lookup assetIn = some pin ∧ cfg.asset? assetOut = some ao ∧
+      prices.lookup assetOut = some pout ∧
+      (0 < ai.decimals → 0 < ao.decimals → ExactLtv ltv aIn (pin : Int) ai.decimals aOut (pout : Int) ao.decimals) ∧
+      (0 < ai.decimals → 0 < ao.decimals → ai.decimals ∣ Dec.P → ao.decimals ∣ Dec.P →
+        ExactLtvScales ltv aIn (pin : Int) ai.decimals aOut (pout : Int) ao.decimals) :=
+  collRatio_exact h hle hc hd hl
+
+/-- an accepted new borrow: exact inequality between loan value and collateral value × LTV -/
+theorem borrow_accepted_ltv_exact {cfg : Cfg} {s s' : State} {u : Nat} {l : Lend} {pair : PairCfg} {rates : RatesCfg} {stable : Bool}
+    {dIn : Nat} {aIn : Int} {dOut : Nat} {aOut : Int} (h : borrowNew cfg s u l pair rates stable dIn aIn dOut aOut = .ok s')
+    (hc : 0 ≤ aIn) (hd : 0 ≤ aOut) (hl : 0 ≤ ltvOf pair rates) :
+    ∃ ai pin ao pout, cfg.asset? l.asset = some ai ∧ s.prices.lookup l.asset = some pin ∧ cfg.asset? pair.assetOut = some ao ∧
+      s.prices.lookup pair.assetOut = some pout ∧
+      (0 < ai.decimals → 0 < ao.decimals → ExactLtv (ltvOf pair rates) aIn (pin : Int) ai.decimals aOut (pout : Int) ao.decimals) ∧
+      (0 < ai.decimals → 0 < ao.decimals → ai.decimals ∣ Dec.P → ao.decimals ∣ Dec.P →
+        ExactLtvScales (ltvOf pair rates) aIn (pin : Int) ai.decimals aOut (pout : Int) ao.decimals) := by
+  obtain ⟨r, hr, hle⟩ := borrow_respects_ltv h
+  exact ltv_exact hr hle hc hd hl
+
+/-- an accepted draw: exact inequality for debt = principal + accrued interest (after the accrual of the message) + the draw -/
+theorem draw_accepted_ltv_exact {cfg : Cfg} {s s' : State} {u k d : Nat} {y : Int} {ext : ExtB} (h : draw cfg s u k d y ext = .ok s') :
+    ∃ b0 l pair rates s1 b, getBorrow s.borrows k = some b0 ∧ getLend s.lends b0.lendingId = some l ∧ cfg.pair? b0.pairId = some pair ∧
+      cfg.rates? pair.assetIn = some rates ∧ iterBorrow s k ext = .ok s1 ∧ getBorrow s1.borrows k = some b ∧
+      (0 ≤ b.amountIn → 0 ≤ b.amountOut + Dec.truncateInt b.interest + y → 0 ≤ ltvOf pair rates →
+        ∃ ai pin ao pout, cfg.asset? l.asset = some ai ∧ s.prices.lookup l.asset = some pin ∧ cfg.asset? pair.assetOut = some ao ∧
+          s.prices.lookup pair.assetOut = some pout ∧
+          (0 < ai.decimals → 0 < ao.decimals →
+            ExactLtv (ltvOf pair rates) b.amountIn (pin : Int) ai.decimals (b.amountOut + Dec.truncateInt b.interest + y) (pout : Int) ao.decimals)) := by
+  obtain ⟨b0, l, pair, rates, s1, b, r, h1, h2, h3, h4, h5, h6, hr, hle⟩ := draw_respects_ltv h
+  refine ⟨b0, l, pair, rates, s1, b, h1, h2, h3, h4, h5, h6, fun hc hd hl => ?_⟩
+  rw [(iterBorrow_frame h5).2.1] at hr
+  obtain ⟨ai, pin, ao, pout, e1, e2, e3, e4, hx, _⟩ := ltv_exact hr hle hc hd hl
+  exact ⟨ai, pin, ao, pout, e1, e2, e3, e4, hx⟩
+
+/-- `cfgT`: two assets with 18 decimals, price 10⁶ each; LTV 0.5 -/
+def cfgT : Cfg := { assets := [⟨1, 1000000000000000000⟩, ⟨2, 1000000000000000000⟩] }
+def pricesT : List (Nat × Nat) := [(1, 1000000), (2, 1000000)]
+
+/-- **The slack is real**: collateral 4·10¹⁸ units, debt 2·10¹⁸ + 1 units, same price and scale: the check accepts at LTV 0.5
+(`Quo` rounds 0.500000000000000000 25 half-even down), the exact ratio is above 0.5, and `ExactLtvScales` holds. -/
+theorem ltv_exact_tight :
+    (verifyCR cfgT pricesT 4000000000000000000 1 2000000000000000001 2 500000000000000000).toBool = true ∧
+    (2000000000000000001 : Int) * 1000000 * 1000000000000000000 * Dec.P > 500000000000000000 * (4000000000000000000 * 1000000 * 1000000000000000000) ∧
+    ExactLtvScales 500000000000000000 4000000000000000000 1000000 1000000000000000000 2000000000000000001 1000000 1000000000000000000 := by
+  decide
 
 /-- **Cross-pool borrow**: besides the check on the pledged collateral, the bridged quantity `q` of the transit asset — the amount
 recorded in the new borrow (`openBorrow … q …`) and moved to the lending-out pool — must itself cover the loan at the transit
@@ -184,6 +242,36 @@ theorem interpool_borrow_respects_transit_ltv {cfg : Cfg} {s s' : State} {u : Na
     | exact absurd ‹(!pair.inter) = true› (by simp [hi])
     | (obtain ⟨r, hr, hle⟩ := verifyCR_ok ‹verifyCR cfg s.prices (Dec.truncateInt _) _ aOut pair.assetOut _ = .ok _›
        exact ⟨_, _, _, r, by assumption, hr, hle, _, _, rfl⟩)
+
+/-- **Cross-pool borrow, exact form**: the bridged quantity `q` recorded in the borrow satisfies the exact LTV inequality of the
+transit asset against the loan, and `q` itself is bounded through the three roundings that produce it from the pledged amount
+(`tin = ⌊aIn·ltv⌋`, its `Dec` value `v`, `q = ⌊Quo(v, unit)⌋` with `unit` the `Dec` value of one unit of the transit asset). -/
+theorem interpool_borrow_ltv_exact {cfg : Cfg} {s s' : State} {u : Nat} {l : Lend} {pair : PairCfg} {rates : RatesCfg} {stable : Bool}
+    {dIn : Nat} {aIn : Int} {dOut : Nat} {aOut : Int} (h : borrowNew cfg s u l pair rates stable dIn aIn dOut aOut = .ok s')
+    (hi : pair.inter = true) (hc : 0 ≤ aIn) (hd : 0 ≤ aOut) (hl : 0 ≤ ltvOf pair rates) :
+    ∃ v unit transit rt brd bank' al pl,
+      cfg.rates? transit = some rt ∧ cfg.asset? l.asset = some al ∧ s.prices.lookup l.asset = some pl ∧
+      s' = openBorrow s l pair stable dIn aIn dOut aOut brd (Dec.truncateInt (Dec.quo v unit)) bank' ∧
+      (0 < al.decimals → 0 < unit →
+        let tin := Dec.truncateInt (Dec.mul (Dec.ofInt aIn) (ltvOf pair rates))
+        let q := Dec.truncateInt (Dec.quo v unit)
+        tin * Dec.P ≤ aIn * ltvOf pair rates ∧ 2 * al.decimals * Dec.P * v ≤ 2 * (tin * (pl : Int) * Dec.P * Dec.P) + al.decimals * Dec.P ∧
+          0 ≤ q ∧ 2 * unit * Dec.P * q ≤ 2 * Dec.P * v + unit ∧
+          (0 ≤ rt.ltv → ∃ atr pt ao pout, cfg.asset? transit = some atr ∧ s.prices.lookup transit = some pt ∧
+            cfg.asset? pair.assetOut = some ao ∧ s.prices.lookup pair.assetOut = some pout ∧
+            (0 < atr.decimals → 0 < ao.decimals → ExactLtv rt.ltv q (pt : Int) atr.decimals aOut (pout : Int) ao.decimals))) := by
+  obtain ⟨v, unit, transit, rt, r, brd, bank', hv, _, _, hrt, hr, hle, hs'⟩ := borrowNew_inter_shape h hi
+  obtain ⟨al, pl, hal, hpl, _, hveq⟩ := calcPrice_eq hv
+  refine ⟨v, unit, transit, rt, brd, bank', al, pl, hrt, hal, hpl, hs', fun hdl hu => ?_⟩
+  intro tin q
+  obtain ⟨_, h1, _, h2, h3, h4⟩ := bridged_chain aIn (ltvOf pair rates) pl al.decimals unit hc hl hdl hu
+  have h2' : 2 * al.decimals * Dec.P * v ≤ 2 * (tin * (pl : Int) * Dec.P * Dec.P) + al.decimals * Dec.P := by rw [hveq]; exact h2
+  have h3' : 0 ≤ q := by show 0 ≤ Dec.truncateInt (Dec.quo v unit); rw [hveq]; exact h3
+  have h4' : 2 * unit * Dec.P * q ≤ 2 * Dec.P * v + unit := by
+    show 2 * unit * Dec.P * Dec.truncateInt (Dec.quo v unit) ≤ _; rw [hveq]; exact h4
+  refine ⟨h1, h2', h3', h4', fun hlt => ?_⟩
+  obtain ⟨at', pt, ao, pout, e1, e2, e3, e4, hx, _⟩ := ltv_exact hr hle h3' hd hlt
+  exact ⟨at', pt, ao, pout, e1, e2, e3, e4, hx⟩
 
 /-- **A new borrow respects the LTV on the tokens actually pledged**: when a borrow message opens a borrow, the pledged denomination
 is the cToken of the pair's collateral asset, that asset is the asset of the debited lend position, and the ratio of the loan value to
@@ -330,8 +418,8 @@ example : CleanRun cfgH (init cfgH bankH pricesH) [.lend 1 1 1 100 1 1 0, .borro
 def stateE : State := run cfgH (init cfgH bankH pricesH) [.lend 1 1 1 100 1 1 0, .borrow 1 1 1 false 3 60 2 10 .err .err]
 
 /-- `borrow_respects_ltv`, `borrow_requires_pool_funds`, `borrow_respects_ltv_pledged`: an accepted new borrow on a regular pair -/
-example : (borrowNew cfgH (run cfgH (init cfgH bankH pricesH) [.lend 1 1 1 100 1 1 0]) 1 ⟨1, 1, 1, 1, 100, 100⟩ ⟨1, 1, 2, false, 1, false⟩
-    ⟨1, 500000000000000000, 0, 3, false, false⟩ false 3 60 2 10).toBool = true ∧ (⟨1, 1, 2, false, 1, false⟩ : PairCfg).assetIn = (⟨1, 1, 1, 1, 100, 100⟩ : Lend).asset := by
+example : (borrowNew cfgH (run cfgH (init cfgH bankH pricesH) [.lend 1 1 1 100 1 1 0]) 1 ⟨1, 1, 1, 1, 100, 100, 1⟩ ⟨1, 1, 2, false, 1, false⟩
+    ⟨1, 500000000000000000, 0, 3, false, false⟩ false 3 60 2 10).toBool = true ∧ (⟨1, 1, 2, false, 1, false⟩ : PairCfg).assetIn = (⟨1, 1, 1, 1, 100, 100, 1⟩ : Lend).asset := by
   decide
 
 /-- `draw_respects_ltv`, `draw_requires_pool_funds`: an accepted draw with accrued interest (external increments 2.5 and 0.5) -/
@@ -347,5 +435,277 @@ example : (withdraw cfgH stateE 1 1 1 40 0).toBool = true ∧ (withdraw cfgH sta
 /-- `closeLend_never_releases_pledged`: refused while a borrow is open, accepted on a fresh position -/
 example : (closeLend cfgH stateE 1 1 0).toBool = false ∧
     (closeLend cfgH (run cfgH (init cfgH bankH pricesH) [.lend 1 1 1 100 1 1 0]) 1 1 0).toBool = true := by decide
+
+/-! ## Where the interest goes: every repayment is split without loss -/
+
+/-- how a partial repayment `p` on borrow `b` (as it stands after the accrual of the message) is booked: `bs'` is the borrow store afterwards -/
+def RepaySplit (b : Borrow) (p : Int) (bs bs' : List Borrow) : Prop :=
+  ∃ toReserve toLenders cut dust,
+    p = toReserve + toLenders + cut + dust ∧
+    (0 ≤ b.reserveInt → b.reserveInt ≤ b.interest → 0 ≤ dust ∧ dust ≤ 1) ∧
+    bs' = setBorrow bs { b with amountOut := b.amountOut - cut,
+                                interest := b.interest - Dec.ofInt (toReserve + toLenders + dust),
+                                reserveInt := b.reserveInt - Dec.ofInt toReserve }
+
+theorem repaySplit_reserve (b : Borrow) (p : Int) (bs : List Borrow) :
+    RepaySplit b p bs (setBorrow bs { b with reserveInt := b.reserveInt - Dec.ofInt p, interest := b.interest - Dec.ofInt p }) :=
+  ⟨p, 0, 0, 0, by omega, fun _ _ => ⟨by omega, by omega⟩, by simp⟩
+
+theorem repaySplit_interest (b : Borrow) (p : Int) (bs : List Borrow) :
+    RepaySplit b p bs (setBorrow bs { b with reserveInt := b.reserveInt - Dec.ofInt (Dec.truncateInt b.reserveInt),
+                                             interest := b.interest - Dec.ofInt p }) := by
+  refine ⟨Dec.truncateInt b.reserveInt, p - Dec.truncateInt b.reserveInt, 0, 0, by omega, fun _ _ => ⟨by omega, by omega⟩, ?_⟩
+  have : Dec.truncateInt b.reserveInt + (p - Dec.truncateInt b.reserveInt) + 0 = p := by omega
+  simp [this]
+
+theorem repaySplit_principal (b : Borrow) (p : Int) (bs : List Borrow) :
+    RepaySplit b p bs (setBorrow bs { b with reserveInt := b.reserveInt - Dec.ofInt (Dec.truncateInt b.reserveInt),
+                                             amountOut := b.amountOut - (p - Dec.truncateInt b.interest),
+                                             interest := b.interest - Dec.ofInt (Dec.truncateInt b.interest) }) := by
+  refine ⟨Dec.truncateInt b.reserveInt, Dec.truncateInt (b.interest - b.reserveInt), p - Dec.truncateInt b.interest,
+    Dec.truncateInt b.interest - Dec.truncateInt b.reserveInt - Dec.truncateInt (b.interest - b.reserveInt), by omega, ?_, ?_⟩
+  · intro h0 hle
+    obtain ⟨dust, d0, d1, e⟩ := interest_split b.interest b.reserveInt h0 hle
+    omega
+  · have : Dec.truncateInt b.reserveInt + Dec.truncateInt (b.interest - b.reserveInt) +
+        (Dec.truncateInt b.interest - Dec.truncateInt b.reserveInt - Dec.truncateInt (b.interest - b.reserveInt)) = Dec.truncateInt b.interest := by omega
+    simp [this]
+
+/-- **Repayment split** — an accepted partial repayment `p` (not the close shortcut) is split into a reserve share, a lender share
+(minted as cTokens into `totalInterestAccumulated`), a principal cut and at most one token of dust:
+`p = toReserve + toLenders + cut + dust`; the borrow's principal falls by `cut`, its accrued interest by exactly the whole tokens
+`toReserve + toLenders + dust`, its reserve tracker by `toReserve`; with `0 ≤ reserveShare ≤ interest` the dust is 0 or 1 token (it is the
+`⌊a⌋ − ⌊b⌋ − ⌊a−b⌋` of the two truncations and stays in the pool). -/
+theorem repay_split {cfg : Cfg} {s s' : State} {u k d : Nat} {p : Int} {ext : ExtB} (h : repay cfg s u k d p ext = .ok s') :
+    closeBorrow cfg s u k ext = .ok s' ∨
+    ∃ s1 b, iterBorrow s k ext = .ok s1 ∧ getBorrow s1.borrows k = some b ∧ RepaySplit b p s1.borrows s'.borrows := by
+  unfold repay at h
+  invert h
+  · exact Or.inl ‹_›
+  all_goals
+    refine Or.inr ?_
+    have hit := ‹iterBorrow s k ext = .ok _›
+    have hb1 := after_iterBorrow hit (by assumption)
+    first
+    | exact ⟨_, _, hit, hb1, repaySplit_reserve _ _ _⟩
+    | exact ⟨_, _, hit, hb1, repaySplit_interest _ _ _⟩
+    | exact ⟨_, _, hit, hb1, repaySplit_principal _ _ _⟩
+
+/-- **Closing a borrow**: the borrower pays principal + whole tokens of interest; of the interest the whole tokens of the reserve share
+go to the reserve, the whole tokens of the rest are minted as cTokens and booked on `totalInterestAccumulated` (the lenders' share),
+at most one token of dust stays in the pool: `⌊interest⌋ = ⌊reserve⌋ + ⌊interest − reserve⌋ + dust`, `dust ∈ {0, 1}`. -/
+theorem closeBorrow_split {cfg : Cfg} {s s' : State} {u k : Nat} {ext : ExtB} (h : closeBorrow cfg s u k ext = .ok s') :
+    ∃ s1 b pair, iterBorrow s k ext = .ok s1 ∧ getBorrow s1.borrows k = some b ∧ cfg.pair? b.pairId = some pair ∧
+      s'.stats = addBorrowed (if Dec.truncateInt (b.interest - b.reserveInt) > 0
+                              then addTotalInterest s1.stats pair.outPool pair.assetOut (Dec.truncateInt (b.interest - b.reserveInt))
+                              else s1.stats) pair.outPool pair.assetOut b.stable (-b.amountOut) ∧
+      (0 ≤ b.reserveInt → b.reserveInt ≤ b.interest → ∃ dust, 0 ≤ dust ∧ dust ≤ 1 ∧
+        Dec.truncateInt b.interest = Dec.truncateInt b.reserveInt + Dec.truncateInt (b.interest - b.reserveInt) + dust) := by
+  unfold closeBorrow at h
+  invert h
+  all_goals
+    have hb0 := ‹getBorrow s.borrows k = some _›
+    have hit := ‹iterBorrow s k ext = .ok _›
+    have hb1 := after_iterBorrow hit (by assumption)
+    obtain ⟨_, _, _, hpi, _⟩ := iterBorrow_rel hit hb0 hb1
+    have hp := ‹cfg.pair? _ = some _›
+    rw [← hpi] at hp
+    refine ⟨_, _, _, hit, hb1, hp, ?_, fun h0 hle => interest_split _ _ h0 hle⟩
+    simp [*]
+
+/-! ## Emergency guards fail closed: kill switch (per app) and pool depreciation -/
+
+/-- a rejected message leaves every record, total and balance unchanged -/
+theorem rejected_no_change (cfg : Cfg) (s : State) (op : Op) (h : (step cfg s op).toBool = false) : apply cfg s op = s := by
+  unfold apply
+  cases hs : step cfg s op with
+  | ok s' => rw [hs] at h; cases h
+  | error e => rfl
+
+theorem bnot_contra {b : Bool} (h1 : (!b) = true) (h2 : b = true) : False := by subst h2; cases h1
+
+/-- **Kill switch on ⇒ every message on a lend position of that app is rejected**: deposit, withdraw, close-lend -/
+theorem killswitch_rejects_lend_ops (cfg : Cfg) (s : State) (u k d : Nat) (amt r : Int) (l : Lend)
+    (hl : getLend s.lends k = some l) (hk : s.isKilled l.app = true) :
+    (deposit cfg s u k d amt r).toBool = false ∧ (withdraw cfg s u k d amt r).toBool = false ∧ (closeLend cfg s u k r).toBool = false := by
+  have hc : ∀ s', closeLend cfg s u k r ≠ .ok s' := by
+    intro s' h; unfold closeLend at h; invert h
+    have e := ‹getLend s.lends k = some _›; rw [hl] at e; cases e
+    exact bnot_contra ‹(!s.isKilled _) = true› hk
+  have hd : ∀ s', deposit cfg s u k d amt r ≠ .ok s' := by
+    intro s' h; unfold deposit at h; invert h
+    have e := ‹getLend s.lends k = some _›; rw [hl] at e; cases e
+    exact bnot_contra ‹(!s.isKilled _) = true› hk
+  have hw : ∀ s', withdraw cfg s u k d amt r ≠ .ok s' := by
+    intro s' h; unfold withdraw at h; invert h
+    · exact hc _ ‹_›
+    · have e := ‹getLend s.lends k = some _›; rw [hl] at e; cases e
+      exact bnot_contra ‹(!s.isKilled _) = true› hk
+  refine ⟨?_, ?_, ?_⟩
+  · cases h : deposit cfg s u k d amt r with | ok s' => exact absurd h (hd s') | error e => rfl
+  · cases h : withdraw cfg s u k d amt r with | ok s' => exact absurd h (hw s') | error e => rfl
+  · cases h : closeLend cfg s u k r with | ok s' => exact absurd h (hc s') | error e => rfl
+
+/-- **Kill switch on ⇒ every message on a borrow of a lend position of that app is rejected**: deposit-borrow, draw, repay,
+close-borrow, repay-withdraw (and the liquidation hand-over) -/
+theorem killswitch_rejects_borrow_ops (cfg : Cfg) (s : State) (u k d : Nat) (amt r : Int) (ext : ExtB) (ni : Dec) (b : Borrow) (l : Lend)
+    (hb : getBorrow s.borrows k = some b) (hl : getLend s.lends b.lendingId = some l) (hk : s.isKilled l.app = true) :
+    (depositBorrow cfg s u k d amt ext).toBool = false ∧ (draw cfg s u k d amt ext).toBool = false ∧
+    (repay cfg s u k d amt ext).toBool = false ∧ (closeBorrow cfg s u k ext).toBool = false ∧
+    (repayWithdraw cfg s u k ext r).toBool = false ∧ (handover cfg s k ni).toBool = false := by
+  have fin : ∀ {b' : Borrow} {l' : Lend}, getBorrow s.borrows k = some b' → getLend s.lends b'.lendingId = some l' →
+      (!s.isKilled l'.app) = true → False := by
+    intro b' l' e1 e2 e3
+    rw [hb] at e1; cases e1
+    rw [hl] at e2; cases e2
+    exact bnot_contra e3 hk
+  have hcb : ∀ s', closeBorrow cfg s u k ext ≠ .ok s' := by
+    intro s' h; unfold closeBorrow at h; invert h
+    all_goals exact fin ‹getBorrow s.borrows k = some _› ‹getLend s.lends _ = some _› ‹(!s.isKilled _) = true›
+  have hdb : ∀ s', depositBorrow cfg s u k d amt ext ≠ .ok s' := by
+    intro s' h; unfold depositBorrow at h; invert h
+    all_goals exact fin ‹getBorrow s.borrows k = some _› ‹getLend s.lends _ = some _› ‹(!s.isKilled _) = true›
+  have hdr : ∀ s', draw cfg s u k d amt ext ≠ .ok s' := by
+    intro s' h; unfold draw at h; invert h
+    exact fin ‹getBorrow s.borrows k = some _› ‹getLend s.lends _ = some _› ‹(!s.isKilled _) = true›
+  have hrp : ∀ s', repay cfg s u k d amt ext ≠ .ok s' := by
+    intro s' h; unfold repay at h; invert h
+    · exact hcb _ ‹_›
+    all_goals exact fin ‹getBorrow s.borrows k = some _› ‹getLend s.lends _ = some _› ‹(!s.isKilled _) = true›
+  have hrw : ∀ s', repayWithdraw cfg s u k ext r ≠ .ok s' := by
+    intro s' h; unfold repayWithdraw at h; invert h
+    exact hcb _ ‹closeBorrow cfg s u k ext = .ok _›
+  have hho : ∀ s', handover cfg s k ni ≠ .ok s' := by
+    intro s' h; unfold handover at h; invert h
+    all_goals exact fin ‹getBorrow s.borrows k = some _› ‹getLend s.lends _ = some _› ‹(!s.isKilled _) = true›
+  refine ⟨?_, ?_, ?_, ?_, ?_, ?_⟩
+  · cases h : depositBorrow cfg s u k d amt ext with | ok s' => exact absurd h (hdb s') | error e => rfl
+  · cases h : draw cfg s u k d amt ext with | ok s' => exact absurd h (hdr s') | error e => rfl
+  · cases h : repay cfg s u k d amt ext with | ok s' => exact absurd h (hrp s') | error e => rfl
+  · cases h : closeBorrow cfg s u k ext with | ok s' => exact absurd h (hcb s') | error e => rfl
+  · cases h : repayWithdraw cfg s u k ext r with | ok s' => exact absurd h (hrw s') | error e => rfl
+  · cases h : handover cfg s k ni with | ok s' => exact absurd h (hho s') | error e => rfl
+
+/-- **Kill switch / depreciation on ⇒ no new lend, no borrow-alternate on that app / pool; no borrow message on a lend position of that
+app / pool** -/
+theorem guards_reject_new_positions (cfg : Cfg) (s : State) (u a d : Nat) (amt : Int) (p app : Nat) (r : Int) (pid : Nat) (st : Bool)
+    (dOut : Nat) (aOut : Int) (e1 e2 : ExtB) (h : s.isKilled app = true ∨ s.isDep p = true) :
+    (lend cfg s u a d amt p app r).toBool = false ∧
+    (borrowAlternate cfg s u a p d amt pid st dOut aOut app r e1 e2).toBool = false := by
+  have hg : ∀ pc, lendGuards cfg s a d amt p app ≠ .ok pc := by
+    intro pc hh; unfold lendGuards at hh; invert hh
+    rcases h with h | h
+    · exact bnot_contra ‹(!s.isKilled app) = true› h
+    · exact bnot_contra ‹(!s.isDep p) = true› h
+  constructor
+  · cases hh : lend cfg s u a d amt p app r with
+    | error e => rfl
+    | ok s' => unfold lend at hh; invert hh <;> exact absurd ‹lendGuards cfg s a d amt p app = .ok _› (hg _)
+  · cases hh : borrowAlternate cfg s u a p d amt pid st dOut aOut app r e1 e2 with
+    | error e => rfl
+    | ok s' => unfold borrowAlternate at hh; invert hh <;> exact absurd ‹lendGuards cfg s a d amt p app = .ok _› (hg _)
+
+theorem guards_reject_borrow (cfg : Cfg) (s : State) (u k pid : Nat) (st : Bool) (dIn : Nat) (aIn : Int) (dOut : Nat) (aOut : Int) (e1 e2 : ExtB)
+    (l : Lend) (hl : getLend s.lends k = some l) (h : s.isKilled l.app = true ∨ s.isDep l.pool = true) :
+    (borrow cfg s u k pid st dIn aIn dOut aOut e1 e2).toBool = false := by
+  cases hh : borrow cfg s u k pid st dIn aIn dOut aOut e1 e2 with
+  | error e => rfl
+  | ok s' =>
+    exfalso
+    unfold borrow at hh; invert hh
+    all_goals
+      have e := ‹getLend s.lends k = some _›; rw [hl] at e; cases e
+      rcases h with h | h
+      · exact bnot_contra ‹(!s.isKilled _) = true› h
+      · exact bnot_contra ‹(!s.isDep _) = true› h
+
+/-- **Depreciated pool ⇒ no deposit, no further pledge, no draw on its positions** (withdraw, close, repay stay possible: users can exit) -/
+theorem depreciation_rejects (cfg : Cfg) (s : State) (u k d : Nat) (amt r : Int) (l : Lend)
+    (hl : getLend s.lends k = some l) (hd : s.isDep l.pool = true) :
+    (deposit cfg s u k d amt r).toBool = false ∧
+    (∀ kb ext b, getBorrow s.borrows kb = some b → b.lendingId = k →
+      (depositBorrow cfg s u kb d amt ext).toBool = false ∧ (draw cfg s u kb d amt ext).toBool = false) := by
+  constructor
+  · cases hh : deposit cfg s u k d amt r with
+    | error e => rfl
+    | ok s' =>
+      exfalso
+      unfold deposit at hh; invert hh
+      have e := ‹getLend s.lends k = some _›; rw [hl] at e; cases e
+      exact bnot_contra ‹(!s.isDep _) = true› hd
+  · intro kb ext b hb hbk
+    have fin : ∀ {b' : Borrow} {l' : Lend}, getBorrow s.borrows kb = some b' → getLend s.lends b'.lendingId = some l' →
+        (!s.isDep l'.pool) = true → False := by
+      intro b' l' e1 e2 e3
+      rw [hb] at e1; cases e1
+      rw [hbk, hl] at e2; cases e2
+      exact bnot_contra e3 hd
+    constructor
+    · cases hh : depositBorrow cfg s u kb d amt ext with
+      | error e => rfl
+      | ok s' =>
+        exfalso
+        unfold depositBorrow at hh; invert hh
+        all_goals exact fin ‹getBorrow s.borrows kb = some _› ‹getLend s.lends _ = some _› ‹(!s.isDep _) = true›
+    · cases hh : draw cfg s u kb d amt ext with
+      | error e => rfl
+      | ok s' =>
+        exfalso
+        unfold draw at hh; invert hh
+        exact fin ‹getBorrow s.borrows kb = some _› ‹getLend s.lends _ = some _› ‹(!s.isDep _) = true›
+
+/-- non-vacuity: with the switch of app 1 on, the open position of `stateE` can be neither drawn on nor repaid nor withdrawn from; with
+it off again all three work; a depreciated pool still lets the user repay and withdraw but not draw or deposit -/
+example :
+    (step cfgH (setKill stateE 1 true) (.draw 1 1 2 5 (.val 0 0))).toBool = false ∧
+    (step cfgH (setKill stateE 1 true) (.repay 1 1 2 5 (.val 0 0))).toBool = false ∧
+    (step cfgH (setKill stateE 1 true) (.withdraw 1 1 1 5 0)).toBool = false ∧
+    (step cfgH (setKill (setKill stateE 1 true) 1 false) (.draw 1 1 2 5 (.val 0 0))).toBool = true ∧
+    (step cfgH (setDepreciated stateE 1) (.draw 1 1 2 5 (.val 0 0))).toBool = false ∧
+    (step cfgH (setDepreciated stateE 1) (.deposit 1 1 1 5 0)).toBool = false ∧
+    (step cfgH (setDepreciated stateE 1) (.repay 1 1 2 5 (.val 0 0))).toBool = true ∧
+    (step cfgH (setDepreciated stateE 1) (.withdraw 1 1 1 5 0)).toBool = true := by decide
+
+/-! ## Accrual bookkeeping (amounts computed by the model from the rates in force) -/
+
+/-- **One accrual, in the ledger**: `IterateBorrow` charges `dI` to the borrower and earmarks `dR` (when positive) for the reserve; the
+lenders' share of the accrued interest, `interest − reserve share`, grows by exactly `dI − dR`; no coin moves and no total changes. -/
+theorem accrual_split {s s1 : State} {k : Nat} {dI dR : Dec} {b0 b : Borrow} (h : iterBorrow s k (.val dI dR) = .ok s1)
+    (h0 : getBorrow s.borrows k = some b0) (h1 : getBorrow s1.borrows k = some b) :
+    b.interest = b0.interest + dI ∧ b.reserveInt = b0.reserveInt + (if dR > 0 then dR else 0) ∧
+      (b.interest - b.reserveInt) - (b0.interest - b0.reserveInt) = dI - (if dR > 0 then dR else 0) ∧
+      s1.bank = s.bank ∧ s1.stats = s.stats ∧ s1.lends = s.lends :=
+  iterBorrow_split h h0 h1
+
+/-- **A second accrual in the same block is the identity** (deposit-and-draw accrues twice): nothing is charged, the indices stay. -/
+theorem accrual_zero_elapsed (a : AccB) (amountOut : Int) (stable : Bool) (apr rr : Dec) (now : Int)
+    (hgi : 0 < a.gi) (hrgi : 0 < a.rgi) (ham : 0 ≤ amountOut) (hsr : 0 ≤ a.stableRate) (hnow : LendRates.elapsed now a.last = 0) :
+    accrueBorrow a amountOut stable apr (some rr) now = { ext := .val 0 0, gi := a.gi, rgi := a.rgi } :=
+  accrueBorrow_zero_elapsed a amountOut stable apr rr now hgi hrgi ham hsr hnow
+
+/-- **The reward tracker loses nothing**: whole tokens paid + fraction carried = fraction before + reward accrued; the carried
+fraction stays in `[0, 1)`. -/
+theorem reward_tracker_conserved (a : AccL) (amountIn : Int) (apr : Dec) (now : Int) (per gi' : Dec) (r : LendAccrual)
+    (h : LendRates.lendReward amountIn apr a.gi now a.last = .ok [per, gi']) (hr : accrueLend a amountIn apr now = r) :
+    Dec.ofInt r.reward + r.tracker = a.tracker + per ∧ r.gi = gi' ∧ r.panicked = false ∧
+      (0 ≤ a.tracker + per → 0 ≤ r.reward ∧ 0 ≤ r.tracker ∧ r.tracker < Dec.one) :=
+  accrueLend_conserved a amountIn apr now per gi' r h hr
+
+/-- **Where a lend reward comes from**: from the lenders' share accumulated by repayments when that suffices (it is reduced by the
+reward), otherwise from the reserve, which must hold the coins. -/
+theorem reward_source {cfg : Cfg} {s s' : State} {k : Nat} {r : Int} (h : iterLends cfg s k r = .ok s') (hr : r > 0) :
+    ∃ l st, getLend s.lends k = some l ∧ getStats s.stats l.pool l.asset = some st ∧
+      ((r ≤ st.totalInterest ∧ s'.stats = addTotalLend (addTotalInterest s.stats l.pool l.asset (-r)) l.pool l.asset r) ∨
+       (st.totalInterest < r ∧ r ≤ s.bank.get cfg.reserveAcct l.asset ∧ s'.stats = addTotalLend s.stats l.pool l.asset r)) :=
+  iterLends_source h hr
+
+/-- non-vacuity: one year at 5 % on a principal of 1000 with index 1, reserve rate 1 %: 50 charged, 10 of it for the reserve; and the
+tracker example: 0.7 carried + 0.6 accrued pays 1 token and carries 0.3 -/
+example :
+    (accrueBorrow ⟨1, Dec.one, Dec.one, 1700000000, 0⟩ 1000 false 50000000000000000 (some 10000000000000000) (1700000000 + 31557600)).ext
+      = .val 50000000000000000000 10000000000000000000 ∧
+    (accrueLend ⟨1, Dec.one, 1700000000, 700000000000000000⟩ 6 100000000000000000 (1700000000 + 31557600)).reward = 1 ∧
+    (accrueLend ⟨1, Dec.one, 1700000000, 700000000000000000⟩ 6 100000000000000000 (1700000000 + 31557600)).tracker = 300000000000000000 := by
+  decide
 
 end Comdex.C08
